@@ -1,4 +1,399 @@
-//! c02 check (under construction)
+//! C02 - parsing untrusted bytes is total and memory-safe.
+//!
+//! Parent process: builds the `release` twin of this binary, then runs every enumeration space as
+//! child processes under both profiles - `relcheck` (std UB checks, overflow checks, the crate's
+//! debug assertions) and `release` (what ships; there an out-of-slice access really happens and
+//! hits the PROT_NONE page next to the input). A child that dies from a signal is narrowed to the
+//! single case and operation through the progress slots it leaves in a shared file.
+mod cat;
+mod infra;
+mod refv;
+mod runner;
+mod spaces;
+
+use std::{
+    collections::{BTreeMap, BTreeSet},
+    path::{Path, PathBuf},
+    process::Command,
+    sync::Mutex,
+};
+
+use infra::{Acc, Progress};
+use spaces::{SPACES, Space, Tables};
+use vpc::{Value, json, rayon::prelude::*};
+
+fn arg<'a>(extra: &'a [String], k: &str) -> Option<&'a str> {
+    extra.iter().position(|x| x == k).and_then(|i| extra.get(i + 1)).map(|s| s.as_str())
+}
+
 pub fn run(args: &vpc::Args) -> ! {
-    vpc::machinery_failure(&format!("property {} not implemented yet", args.prop))
+    vpc::quiet_panics();
+    if args.extra.iter().any(|x| x == "--child") {
+        child(args);
+    }
+    if let Some(f) = &args.replay {
+        replay(args, f);
+    }
+    parent(args)
+}
+
+// ------------------------------------------------------------------------------------------------
+// child
+// ------------------------------------------------------------------------------------------------
+fn child(args: &vpc::Args) -> ! {
+    let e = &args.extra;
+    let space = Space::from_name(arg(e, "--space").unwrap_or("")).unwrap_or_else(|| vpc::machinery_failure("child: bad --space"));
+    let lo: u64 = arg(e, "--lo").and_then(|s| s.parse().ok()).unwrap_or(0);
+    let hi: u64 = arg(e, "--hi").and_then(|s| s.parse().ok()).unwrap_or(0);
+    let threads: usize = arg(e, "--threads").and_then(|s| s.parse().ok()).unwrap_or(1);
+    let trace = e.iter().any(|x| x == "--trace");
+    let skip: BTreeSet<String> = arg(e, "--skip").map(|s| s.split(";;").filter(|x| !x.is_empty()).map(|x| x.to_string()).collect()).unwrap_or_default();
+    let progress = arg(e, "--progress").map(|p| Progress::open(Path::new(p), false));
+    let out = arg(e, "--out").map(PathBuf::from);
+    let tables = Tables::new(args.tier == vpc::Tier::Thorough);
+    let total = Mutex::new(Acc::default());
+    let pool = vpc::rayon::ThreadPoolBuilder::new().num_threads(threads).build().unwrap();
+    let n = hi.saturating_sub(lo);
+    let chunk = (n / (threads as u64 * 32)).clamp(1, 512);
+    pool.install(|| {
+        (0..n.div_ceil(chunk)).into_par_iter().for_each(|ci| {
+            let mut acc = Acc::default();
+            let ti = vpc::rayon::current_thread_index().unwrap_or(0);
+            {
+                let mut env = runner::Env { acc: &mut acc, progress: progress.as_ref().map(|p| (p, ti)), trace, skip: &skip, case: 0, sub: 0 };
+                for case in lo + ci * chunk..(lo + (ci + 1) * chunk).min(hi) {
+                    tables.run_case(space, &mut env, case);
+                    env.acc.count("cases", 1);
+                }
+            }
+            total.lock().unwrap().merge(acc);
+        })
+    });
+    let t = total.into_inner().unwrap();
+    let fails: Vec<Value> = t.fails.iter().map(|(class, (n, (case, sub), what, sig, hex))| json!({"class": class, "count": n, "case": case, "sub": sub, "what": what, "sig": sig, "input": hex})).collect();
+    let res = json!({"outcomes": t.outcomes, "counters": t.counters, "fails": fails, "skipped": t.skipped});
+    match out {
+        Some(p) => std::fs::write(&p, serde_json::to_vec(&res).unwrap()).unwrap_or_else(|e| vpc::machinery_failure(&format!("child cannot write {}: {e}", p.display()))),
+        None => println!("{}", serde_json::to_string_pretty(&res).unwrap()),
+    }
+    std::process::exit(0)
+}
+
+// ------------------------------------------------------------------------------------------------
+// parent
+// ------------------------------------------------------------------------------------------------
+struct Profile {
+    name: &'static str,
+    exe: PathBuf,
+}
+
+fn harness_dir() -> PathBuf {
+    Path::new(env!("CARGO_MANIFEST_DIR")).parent().unwrap().to_path_buf()
+}
+fn profiles() -> Vec<Profile> {
+    let cur = std::env::current_exe().unwrap_or_else(|e| vpc::machinery_failure(&format!("current_exe: {e}")));
+    let root = cur.parent().and_then(|p| p.parent()).unwrap_or_else(|| vpc::machinery_failure("unexpected exe location")).to_path_buf();
+    let rel = root.join("release").join("vp-wire");
+    let chk = root.join("relcheck").join("vp-wire");
+    // the release twin is built on demand (same sources, same target dir)
+    let st = Command::new("cargo").args(["build", "--offline", "--release", "-p", "vp-wire"]).current_dir(harness_dir()).env("CARGO_TARGET_DIR", &root).output();
+    match st {
+        Ok(o) if o.status.success() => {}
+        Ok(o) => vpc::machinery_failure(&format!("building the release twin failed:\n{}", String::from_utf8_lossy(&o.stderr).lines().rev().take(25).collect::<Vec<_>>().into_iter().rev().collect::<Vec<_>>().join("\n"))),
+        Err(e) => vpc::machinery_failure(&format!("cannot run cargo: {e}")),
+    }
+    if !chk.exists() {
+        vpc::machinery_failure(&format!("{} missing (run through /verif/check)", chk.display()));
+    }
+    vec![Profile { name: "relcheck", exe: chk }, Profile { name: "release", exe: rel }]
+}
+
+struct ChildResult {
+    status: Result<Value, String>, // Ok(result json) or Err(description of death)
+    signal: Option<i32>,
+    in_flight: Vec<(u64, u64, String)>,
+}
+
+#[allow(clippy::too_many_arguments)]
+fn run_child(p: &Profile, tier: vpc::Tier, space: Space, lo: u64, hi: u64, threads: usize, skip: &BTreeSet<String>, trace: bool, scratch: &Path, timeout_s: u64) -> ChildResult {
+    use std::os::unix::process::ExitStatusExt;
+    let prog = scratch.join(format!("progress-{}-{}", p.name, space.name()));
+    let out = scratch.join(format!("out-{}-{}", p.name, space.name()));
+    let _ = std::fs::remove_file(&out);
+    let pr = Progress::open(&prog, true);
+    pr.clear();
+    let mut cmd = Command::new(&p.exe);
+    cmd.args(["C02", "--tier", tier.name(), "--child", "--space", space.name(), "--lo", &lo.to_string(), "--hi", &hi.to_string(), "--threads", &threads.to_string()]);
+    cmd.arg("--progress").arg(&prog).arg("--out").arg(&out);
+    if !skip.is_empty() {
+        cmd.arg("--skip").arg(skip.iter().cloned().collect::<Vec<_>>().join(";;"));
+    }
+    if trace {
+        cmd.arg("--trace");
+    }
+    cmd.stdout(std::process::Stdio::null()).stderr(std::process::Stdio::piped());
+    let mut ch = cmd.spawn().unwrap_or_else(|e| vpc::machinery_failure(&format!("cannot spawn {}: {e}", p.exe.display())));
+    let t0 = std::time::Instant::now();
+    let status = loop {
+        match ch.try_wait() {
+            Ok(Some(s)) => break Some(s),
+            Ok(None) => {
+                if t0.elapsed().as_secs() > timeout_s {
+                    let _ = ch.kill();
+                    let _ = ch.wait();
+                    break None;
+                }
+                std::thread::sleep(std::time::Duration::from_millis(15));
+            }
+            Err(e) => vpc::machinery_failure(&format!("wait: {e}")),
+        }
+    };
+    let in_flight = pr.in_flight();
+    match status {
+        None => ChildResult { status: Err(format!("no result within {timeout_s} s (killed)")), signal: Some(0), in_flight },
+        Some(s) if s.success() => match std::fs::read(&out).ok().and_then(|b| serde_json::from_slice::<Value>(&b).ok()) {
+            Some(v) => ChildResult { status: Ok(v), signal: None, in_flight },
+            None => vpc::machinery_failure("child exited 0 without a result file"),
+        },
+        Some(s) => {
+            let mut err = String::new();
+            if let Some(mut e) = ch.stderr.take() {
+                use std::io::Read;
+                let _ = e.read_to_string(&mut err);
+            }
+            let tail: String = err.lines().rev().take(6).collect::<Vec<_>>().into_iter().rev().collect::<Vec<_>>().join(" / ");
+            match s.signal() {
+                Some(sig) => ChildResult { status: Err(format!("killed by signal {sig}; stderr: {tail}")), signal: Some(sig), in_flight },
+                None => {
+                    if s.code() == Some(2) {
+                        vpc::machinery_failure(&format!("child reported a machinery failure: {tail}"));
+                    }
+                    ChildResult { status: Err(format!("exit code {:?}; stderr: {tail}", s.code())), signal: Some(-1), in_flight }
+                }
+            }
+        }
+    }
+}
+
+fn signame(s: i32) -> String {
+    match s {
+        0 => "timeout".into(),
+        -1 => "abnormal-exit".into(),
+        4 => "SIGILL".into(),
+        6 => "SIGABRT".into(),
+        7 => "SIGBUS".into(),
+        11 => "SIGSEGV".into(),
+        x => format!("signal{x}"),
+    }
+}
+
+#[derive(Default)]
+struct Merged {
+    outcomes: BTreeMap<String, u64>,
+    counters: BTreeMap<String, u64>,
+    /// class -> (count, witness)
+    fails: BTreeMap<String, (u64, Value)>,
+    skipped: BTreeMap<String, u64>,
+}
+impl Merged {
+    fn add(&mut self, v: &Value, profile: &str, space: Space, tables: &Tables) {
+        for (k, n) in v["outcomes"].as_object().into_iter().flatten() {
+            *self.outcomes.entry(k.clone()).or_default() += n.as_u64().unwrap_or(0);
+        }
+        for (k, n) in v["counters"].as_object().into_iter().flatten() {
+            *self.counters.entry(k.clone()).or_default() += n.as_u64().unwrap_or(0);
+        }
+        for (k, n) in v["skipped"].as_object().into_iter().flatten() {
+            *self.skipped.entry(k.clone()).or_default() += n.as_u64().unwrap_or(0);
+        }
+        for f in v["fails"].as_array().into_iter().flatten() {
+            let class = f["class"].as_str().unwrap_or("?").to_string();
+            let case = f["case"].as_u64().unwrap_or(0);
+            let w = json!({"profile": profile, "space": space.name(), "case": case, "sub": f["sub"], "shape": tables.describe(space, case), "operation": f["sig"], "what": f["what"], "input": f["input"]});
+            let e = self.fails.entry(class).or_insert((0, w));
+            e.0 += f["count"].as_u64().unwrap_or(1);
+        }
+    }
+}
+
+fn parent(args: &vpc::Args) -> ! {
+    let run = vpc::Run::new(args);
+    let thorough = args.tier == vpc::Tier::Thorough;
+    let tables = Tables::new(thorough);
+    let profs = profiles();
+    let scratch = PathBuf::from(format!("/root/scratch/b-wire/c02-{}", std::process::id()));
+    std::fs::create_dir_all(&scratch).unwrap_or_else(|e| vpc::machinery_failure(&format!("scratch dir: {e}")));
+    let threads = std::thread::available_parallelism().map(|n| n.get()).unwrap_or(8);
+    let timeout = if thorough { 3600 } else { 300 };
+    let mut merged: BTreeMap<&'static str, Merged> = BTreeMap::new();
+    let mut per_space = vec![];
+    let mut crash_classes: Vec<(String, String, Value)> = vec![];
+    let mut complete = true;
+    for space in SPACES {
+        let total = tables.total(space);
+        for p in &profs {
+            let t0 = run.elapsed_s();
+            let m = merged.entry(p.name).or_default();
+            let nshards = if thorough { 16 } else { 4 }.min(total.max(1));
+            let mut restarts = 0;
+            for sh in 0..nshards {
+                let (lo, hi) = (total * sh / nshards, total * (sh + 1) / nshards);
+                let mut skip: BTreeSet<String> = crash_classes.iter().filter(|c| c.1 == p.name).map(|c| c.0.clone()).collect();
+                loop {
+                    let r = run_child(p, args.tier, space, lo, hi, threads, &skip, false, &scratch, timeout);
+                    match r.status {
+                        Ok(v) => {
+                            m.add(&v, p.name, space, &tables);
+                            break;
+                        }
+                        Err(death) => {
+                            restarts += 1;
+                            // narrow to the single case and operation: re-run every in-flight case alone, traced
+                            let mut found = None;
+                            let mut cands: Vec<u64> = r.in_flight.iter().map(|x| x.0).collect();
+                            cands.sort();
+                            cands.dedup();
+                            for case in cands {
+                                let t = run_child(p, args.tier, space, case, case + 1, 1, &skip, true, &scratch, 120);
+                                if let (Err(d2), Some(slot)) = (&t.status, t.in_flight.first()) {
+                                    found = Some((case, slot.1, slot.2.clone(), d2.clone(), t.signal.unwrap_or(-1)));
+                                    break;
+                                }
+                            }
+                            match found {
+                                Some((case, sub, tag, d2, sig)) => {
+                                    let parts: Vec<&str> = tag.split('|').collect();
+                                    let skipsig = format!("{}|{}|{}", parts.first().unwrap_or(&""), parts.get(2).unwrap_or(&""), parts.get(3).unwrap_or(&""));
+                                    let w = json!({"profile": p.name, "space": space.name(), "case": case, "sub": sub, "shape": tables.describe(space, case), "operation": tag, "death": d2, "crash": true});
+                                    crash_classes.push((skipsig.clone(), p.name.to_string(), json!({"class": format!("{}@{}", signame(sig), skipsig), "witness": w})));
+                                    skip.insert(skipsig);
+                                }
+                                None => {
+                                    let w = json!({"profile": p.name, "space": space.name(), "lo": lo, "hi": hi, "death": death, "in_flight": r.in_flight.iter().map(|x| json!([x.0, x.1, x.2])).collect::<Vec<_>>()});
+                                    crash_classes.push((format!("unreproduced-{}-{}-{}", space.name(), p.name, sh), p.name.to_string(), json!({"class": format!("child-died-not-reproducible-single-threaded[{}]@{}", p.name, space.name()), "witness": w})));
+                                    complete = false;
+                                    break;
+                                }
+                            }
+                            if restarts > 40 {
+                                complete = false;
+                                break;
+                            }
+                        }
+                    }
+                }
+            }
+            per_space.push(json!({"space": space.name(), "profile": p.name, "cases": total, "wall_s": ((run.elapsed_s() - t0) * 10.0).round() / 10.0, "child_restarts_after_crash": restarts}));
+        }
+    }
+    let _ = std::fs::remove_dir_all(&scratch);
+
+    // ---- verdicts
+    let empty = Merged::default();
+    let chk = merged.get("relcheck").unwrap_or(&empty);
+    let rel = merged.get("release").unwrap_or(&empty);
+    for (k, n) in &chk.outcomes {
+        run.outcome_n(k, *n);
+    }
+    let report = |class: &str, n: u64, w: &Value, what: &str| {
+        run.violation(class, what, w.clone());
+        for _ in 1..n.min(100_000) {
+            run.violation(class, "", Value::Null);
+        }
+    };
+    for (class, (n, w)) in &chk.fails {
+        if class.starts_with("panic@") {
+            if rel.fails.contains_key(class) {
+                continue; // reported from the release results below
+            }
+            let c2 = format!("debug-only-{class}");
+            report(&c2, *n, w, &format!("panics only in a build with debug assertions / overflow checks (release build: no panic here; see the release-profile classes for what happens instead): {}", w["what"].as_str().unwrap_or("")));
+        } else {
+            report(class, *n, w, w["what"].as_str().unwrap_or(""));
+        }
+    }
+    for (class, (n, w)) in &rel.fails {
+        if chk.fails.contains_key(class) && !class.starts_with("panic@") {
+            continue;
+        }
+        let what = if class.starts_with("panic@") { format!("panics in the release build: {}", w["what"].as_str().unwrap_or("")) } else { format!("[release build] {}", w["what"].as_str().unwrap_or("")) };
+        report(class, *n, w, &what);
+    }
+    for (_, prof, c) in &crash_classes {
+        let class = c["class"].as_str().unwrap_or("crash");
+        let class = if class.contains('[') { class.to_string() } else { format!("{class}[{prof}]") };
+        run.violation(&class, &format!("child process died: {}", c["witness"]["death"].as_str().unwrap_or("")), c["witness"].clone());
+    }
+    let g = |m: &Merged, k: &str| m.counters.get(k).copied().unwrap_or(0);
+    let evaluations = g(chk, "constructor_calls") + g(chk, "subject_calls") + g(rel, "constructor_calls") + g(rel, "subject_calls");
+    let quick_bound = "stdpath: {0,1,2,3,62,63}^3 segment triples x every prefix length 0..=n+1 x 2 fills + all 256 (CurrINF,CurrHF); header: path types {0,2,3,4,5,255,1 x reduced cube} x 256 DT/DL,ST/SL nibble pairs x HdrLen {consistent,+1,-1,0,9,255} x boundary truncations b,b+-1 x 2 fills; l4: 64 header shapes x NextHdr{17,202,0,255} x {UDP length 0,7,8,real,65535 | SCMP type 1,2,4,5,6,128,129,130,131,0,255} x 3 body sizes x PayloadLen{0,7,8,real,real+1,65535} x truncations x 2 fills, and every prefix of every upper-layer body through all payload view types; seq: all mutator sequences of length <= 2 on the representative buffers";
+    let thorough_bound = "stdpath: full 2^18 segment triples x boundary truncations (every prefix on the reduced cube) x 2 fills + all 256 (CurrINF,CurrHF); header: full 2^18 triples x 256 nibble pairs (triples whose header cannot fit 1020 bytes: 16 length nibble pairs) x HdrLen variants x boundary truncations x 2 fills; l4 as quick; seq: sequences <= 3 on path/payload views, <= 2 on packet/header views";
+    run.finish(
+        "exploration",
+        json!({
+            "evaluations": evaluations,
+            "constructor_calls": {"relcheck": g(chk, "constructor_calls"), "release": g(rel, "constructor_calls")},
+            "accessor_and_mutator_calls": {"relcheck": g(chk, "subject_calls"), "release": g(rel, "subject_calls")},
+            "buffers_generated_per_profile": g(chk, "buffers"),
+            "cases_per_profile": g(chk, "cases"),
+            "mutator_sequences_per_profile": g(chk, "mutator_sequences"),
+            "single_mutator_applications_per_profile": g(chk, "mutator_applications"),
+            "distinct_nontrivial": g(chk, "accepted_view_constructions_distinct"),
+            "rule": "number of distinct (view type, shape case, truncation, fill) combinations whose try_from_slice ACCEPTED (each then went through the accessor sweeps); counted once per combination in the relcheck profile",
+            "view_types": spaces::kind_names(),
+            "catalogue_crosscheck": cat::CROSSCHECK,
+            "exhaustive": complete,
+            "spaces": per_space,
+            "operations_skipped_after_their_crash_class_was_recorded": {"relcheck": chk.skipped, "release": rel.skipped},
+            "bound": if thorough { thorough_bound } else { quick_bound },
+        }),
+        &[
+            "bytes that do not influence a size computation come from two fills (all zero; a distinct high-bit pattern per field with timestamps near 2^32)",
+            "unsafe fns are out of scope (property wording); safe fns are called with boundary arguments {0,1,2,3,62,63,64,255,usize::MAX, count-1, count, count+1}",
+            "try_from_boxed inputs live on the heap: for them only the UB checks and the pointer-range oracle apply, not the guard pages",
+            "the release twin is built by this check itself with `cargo build --release -p vp-wire` into the same target dir",
+        ],
+    )
+}
+
+// ------------------------------------------------------------------------------------------------
+// replay
+// ------------------------------------------------------------------------------------------------
+fn replay(args: &vpc::Args, f: &Path) -> ! {
+    let v = vpc::read_replay(f);
+    let w = &v["witness"];
+    let space = Space::from_name(w["space"].as_str().unwrap_or("")).unwrap_or_else(|| vpc::machinery_failure("replay: unknown space"));
+    let case = w["case"].as_u64().unwrap_or(0);
+    let profs = profiles();
+    let scratch = PathBuf::from(format!("/root/scratch/b-wire/c02-replay-{}", std::process::id()));
+    std::fs::create_dir_all(&scratch).ok();
+    println!("replay of class {}: space={} case={} ({})", v["class"], space.name(), case, w["shape"]);
+    let mut bad = false;
+    for tier in [vpc::Tier::Quick, vpc::Tier::Thorough] {
+        let tables = Tables::new(tier == vpc::Tier::Thorough);
+        if case >= tables.total(space) || tables.describe(space, case) != w["shape"].as_str().unwrap_or("") {
+            continue;
+        }
+        for p in &profs {
+            let r = run_child(p, tier, space, case, case + 1, 1, &BTreeSet::new(), true, &scratch, 300);
+            match r.status {
+                Ok(res) => {
+                    let fails = res["fails"].as_array().cloned().unwrap_or_default();
+                    println!("[{}] case ran to completion, {} failing classes", p.name, fails.len());
+                    for f in fails {
+                        bad = true;
+                        println!("   [{}] x{} at sub={} op={} : {}", f["class"].as_str().unwrap_or(""), f["count"], f["sub"], f["sig"].as_str().unwrap_or(""), f["what"].as_str().unwrap_or(""));
+                    }
+                }
+                Err(d) => {
+                    bad = true;
+                    println!("[{}] child died: {d}\n   in flight: {:?}", p.name, r.in_flight);
+                }
+            }
+        }
+        break;
+    }
+    let _ = std::fs::remove_dir_all(&scratch);
+    let _ = args;
+    std::process::exit(if bad { 1 } else { 0 })
 }
